@@ -33,7 +33,7 @@ theorem fsmul_fadd (c : ℝ) (a b : List (Frame ℝ)) : fsmul c (fadd a b) = fad
   apply List.ext_getElem?
   intro i
   simp only [List.getElem?_zipWith, List.getElem?_map]
-  cases a[i]? <;> cases b[i]? <;> simp [Frame.add_scale]
+  cases a[i]? <;> cases b[i]? <;> simp [FrameB.add_scale]
 
 /-- what `C13_delay_linear` asks of the feedback effects: an addition and a scaling on their states
     for which `process` is additive and homogeneous (true of any chain of linear per-frame effects) -/
@@ -94,14 +94,14 @@ theorem scaleFb_add (p : Parameter ℝ ℝ) (n i : ℕ) (a b : List (Frame ℝ))
   apply List.ext_getElem?
   intro k
   simp only [scaleFb_getElem?, List.getElem?_zipWith]
-  cases a[k]? <;> cases b[k]? <;> simp [Frame.add_scale]
+  cases a[k]? <;> cases b[k]? <;> simp [FrameB.add_scale]
 
 theorem scaleFb_smul (p : Parameter ℝ ℝ) (n i : ℕ) (c : ℝ) (a : List (Frame ℝ)) :
     scaleFb p n i (fsmul c a) = fsmul c (scaleFb p n i a) := by
   apply List.ext_getElem?
   intro k
   simp only [scaleFb_getElem?, List.getElem?_map]
-  cases a[k]? <;> simp [Frame.scale_comm]
+  cases a[k]? <;> simp [FrameB.scale_comm]
 
 theorem mixOut_add (p : Parameter ℝ ℝ) (n i : ℕ) (t1 t2 x1 x2 : List (Frame ℝ)) :
     mixOut p n i (fadd t1 t2) (fadd x1 x2) = fadd (mixOut p n i t1 x1) (mixOut p n i t2 x2) := by
@@ -414,7 +414,7 @@ theorem onePole_linear (g f dt : ℝ) (info : Info ℝ) :
         have hstep : ((⟨g, 0, f, Frame.add s1 s2⟩ : ProbeFx ℝ).step (Frame.add x y))
             = (⟨g, 0, f, Frame.add ((⟨g, 0, f, s1⟩ : ProbeFx ℝ).step x).2 ((⟨g, 0, f, s2⟩ : ProbeFx ℝ).step y).2⟩,
                Frame.add ((⟨g, 0, f, s1⟩ : ProbeFx ℝ).step x).2 ((⟨g, 0, f, s2⟩ : ProbeFx ℝ).step y).2) := by
-          simp only [step, chan, r32_real, Frame.add_left, Frame.add_right, add_zero]
+          simp only [step, chan, r32_real, FrameB.add_left, FrameB.add_right, add_zero]
           refine Prod.ext ?_ ?_ <;> simp <;> (try constructor) <;> (try ext) <;> simp <;> ring
         have h1 : ((⟨g, 0, f, s1⟩ : ProbeFx ℝ).step x).1 = ⟨g, 0, f, ((⟨g, 0, f, s1⟩ : ProbeFx ℝ).step x).2⟩ := rfl
         have h2 : ((⟨g, 0, f, s2⟩ : ProbeFx ℝ).step y).1 = ⟨g, 0, f, ((⟨g, 0, f, s2⟩ : ProbeFx ℝ).step y).2⟩ := rfl
@@ -429,7 +429,7 @@ theorem onePole_linear (g f dt : ℝ) (info : Info ℝ) :
       have hstep : ((⟨g, 0, f, s.scale c⟩ : ProbeFx ℝ).step (x.scale c))
           = (⟨g, 0, f, (((⟨g, 0, f, s⟩ : ProbeFx ℝ).step x).2).scale c⟩,
              (((⟨g, 0, f, s⟩ : ProbeFx ℝ).step x).2).scale c) := by
-        simp only [step, chan, r32_real, Frame.scale_left, Frame.scale_right, add_zero]
+        simp only [step, chan, r32_real, FrameB.scale_left, FrameB.scale_right, add_zero]
         refine Prod.ext ?_ ?_ <;> simp <;> (try constructor) <;> (try ext) <;> simp <;> ring
       have h1 : ((⟨g, 0, f, s⟩ : ProbeFx ℝ).step x).1 = ⟨g, 0, f, ((⟨g, 0, f, s⟩ : ProbeFx ℝ).step x).2⟩ := rfl
       have := ih ((⟨g, 0, f, s⟩ : ProbeFx ℝ).step x).2
